@@ -234,7 +234,7 @@ def _explore_prefix(task):
     }
 
 
-def explore(ref, depth, table, plen=2, name=None):
+def explore(ref, depth, table, plen=2, name=None, others=()):
     """All histories of length 1..depth over the spec's operations, smallest
     first.  `table` is the pristine baseline from `baseline()` (it also gives
     the number of operations); it travels with every task.  The spec itself
@@ -267,7 +267,7 @@ def explore(ref, depth, table, plen=2, name=None):
             out["outcome_kinds"][k] = out["outcome_kinds"].get(k, 0) + v
     # smallest-first so that the first recorded case per signature is minimal
     out["fails"].sort(key=lambda f: (len(f[1]["history"]), f[1]["history"]))
-    out["fails"] = confirm(ref, table, out["fails"])
+    out["fails"] = confirm(ref, table, out["fails"], others)
     out["expected_distinct"] = len({O.digest(table[i]) for i in range(nops)})
     out["nops"] = nops
     return out
@@ -303,24 +303,32 @@ def long_histories(ref, table, hs):
 
 def _confirm_work(task):
     """In a pristine process: first the prelude (each operation on its own
-    fresh instance - other instances used earlier in the process), then the
-    history on one fresh instance.  Returns the violations of its last event."""
+    fresh instance - other instances used earlier in the process; an entry is
+    an operation index of the same spec, or (ref, table, index) for an
+    instance of another spec, e.g. of another class), then the history on one
+    fresh instance.  Returns the violations of its last event."""
     ref, table, prelude, h = task
-    spec = install_baseline(ref, table)
     for k in prelude:
-        spec.apply(spec.fresh(), k)
+        if isinstance(k, int):
+            sp = install_baseline(ref, table)
+        else:
+            sp, k = install_baseline(k[0], k[1]), k[2]
+        sp.apply(sp.fresh(), k)
+    spec = install_baseline(ref, table)
     obj, obs, keep, viol = build(spec, tuple(h))
     return [(sig, detail) for n, sig, detail in viol if n == len(h) - 1]
 
 
-def confirm(ref, table, fails):
+def confirm(ref, table, fails, others=()):
     """Worker processes run many histories, so a failure seen there may owe
-    something to what the process did earlier (module-level state).  For the
-    smallest case of every signature, look for a self-contained reproduction
-    in a pristine process: the history alone, else the history after one other
-    operation executed on a separate fresh instance.  The case records the
-    prelude it needs (`prelude`), or `self_contained: false` if none of these
-    reproduces it (it is reported all the same)."""
+    something to what the process did earlier (module- or class-level state).
+    For the smallest case of every signature, look for a self-contained
+    reproduction in a pristine process: the history alone, else the history
+    after one other operation executed on a separate fresh instance - of the
+    same spec, or of one of `others` [(ref, table)] (instances of other
+    classes).  The case records the prelude it needs (`prelude`), or
+    `self_contained: false` if none of these reproduces it (it is reported
+    all the same)."""
     from . import pristine
 
     nops = len(table)
@@ -333,16 +341,18 @@ def confirm(ref, table, fails):
         seen.add(sig)
         h = case["history"]
         cands = [[]] + [[k] for k in range(nops)]
+        cands += [[(r2, t2, k)] for r2, t2 in others for k in range(len(t2))]
         res = pristine.pristine_map(_confirm_work, [(ref, table, pre, h) for pre in cands], repeat=1)
         case = dict(case)
         case["self_contained"] = False
         for pre, (viol,) in zip(cands, res):
             if viol:
-                case["prelude"] = pre
+                shown = [k if isinstance(k, int) else [list(k[0]), k[2]] for k in pre]
+                case["prelude"] = shown
                 case["self_contained"] = True
                 if pre:
                     detail = (f"{detail} [needs process state: reproduced in a pristine process after "
-                              f"operation {pre} ran on ANOTHER fresh instance; there: {viol[0][0]}]")
+                              f"operation {shown} ran on ANOTHER fresh instance; there: {viol[0][0]}]")
                 break
         out.append((sig, case, detail))
     return out
